@@ -75,3 +75,105 @@ Corollary pq_reorder_err_from_step elems F :
   pq_reorder elems F = Err ValueErr -> ~ exists res, SetsOK F res.
 Proof. intros E H. destruct (pq_reorder_complete_from_step elems F H) as (r & Hr). congruence. Qed.
 End FromStep.
+
+(* ------------------------------------------------------------------------------------------------ *)
+(* 0/1 words: where the ones of a concatenation of blocks can be *)
+Lemma all_zero_app a b : all_zero (a ++ b) = all_zero a && all_zero b.
+Proof. unfold all_zero. apply forallb_app. Qed.
+Lemma all_one_app a b : all_one (a ++ b) = all_one a && all_one b.
+Proof. unfold all_one. apply forallb_app. Qed.
+
+Lemma ones_zeros_app a b :
+  ones_zeros (a ++ b) = (all_one a && ones_zeros b) || (ones_zeros a && all_zero b).
+Proof.
+  induction a as [|[|] a IH]; simpl.
+  - destruct (ones_zeros b) eqn:E; [reflexivity|]. destruct (all_zero b) eqn:E2; [|reflexivity].
+    apply all_zero_ones_zeros in E2. congruence.
+  - exact IH.
+  - now rewrite all_zero_app.
+Qed.
+
+Lemma contig01_app a b :
+  contig01 (a ++ b) = (all_zero a && contig01 b) || (contig01 a && all_zero b) || (zeros_ones a && ones_zeros b).
+Proof.
+  induction a as [|[|] a IH]; simpl.
+  - destruct (contig01 b) eqn:E; [reflexivity|].
+    destruct (all_zero b) eqn:E2; [apply all_zero_ones_zeros, ones_zeros_contig in E2; congruence|].
+    destruct (ones_zeros b) eqn:E3; [apply ones_zeros_contig in E3; congruence|reflexivity].
+  - rewrite ones_zeros_app. destruct (all_one a), (ones_zeros b), (ones_zeros a), (all_zero b); reflexivity.
+  - exact IH.
+Qed.
+
+Lemma all_zero_concat {X} (wd : X -> list bool) l :
+  all_zero (flat_map wd l) = true <-> Forall (fun x => all_zero (wd x) = true) l.
+Proof.
+  induction l as [|x t IH]; simpl; [split; constructor|]. rewrite all_zero_app, andb_true_iff, IH. split.
+  - intros [H1 H2]. now constructor.
+  - intros H. inversion H; subst. auto.
+Qed.
+
+Lemma all_zero_not_one w : w <> [] -> all_zero w = true -> all_one w = false.
+Proof. destruct w as [|[|] w]; simpl; intros H1 H2; try congruence. Qed.
+
+Section Shape.
+Context {X : Type}.
+Variable wd : X -> list bool.
+Let az (x : X) := all_zero (wd x) = true.
+Let ao (x : X) := all_one (wd x) = true.
+
+(* the ones of the concatenation form a prefix: blocks of ones, then at most one block 1+0*, then blocks of zeros *)
+Lemma shape_prefix l : Forall (fun x => wd x <> []) l -> ones_zeros (flat_map wd l) = true ->
+  exists A rest, l = A ++ rest /\ Forall ao A /\
+    (rest = [] \/ exists w' W3, rest = w' :: W3 /\ ones_zeros (wd w') = true /\ all_one (wd w') = false /\ Forall az W3).
+Proof.
+  induction 1 as [|x t Hx Ht IH]; simpl; intros H.
+  - exists [], []. repeat split; auto.
+  - rewrite ones_zeros_app in H. destruct (all_one (wd x)) eqn:Eo.
+    + simpl in H. destruct (ones_zeros (flat_map wd t)) eqn:Et.
+      * destruct (IH eq_refl) as (A & rest & -> & HA & Hr). exists (x :: A), rest. repeat split; auto.
+      * simpl in H. apply andb_true_iff in H. destruct H as [_ H]. apply all_zero_ones_zeros in H. congruence.
+    + simpl in H. apply andb_true_iff in H. destruct H as [H1 H2]. apply all_zero_concat in H2.
+      exists [], (x :: t). repeat split; auto. right. exists x, t. auto.
+Qed.
+
+Inductive Shape : list X -> Prop :=
+| Sh_none l : Forall az l -> Shape l
+| Sh_one W1 w W3 : Forall az W1 -> Forall az W3 -> contig01 (wd w) = true -> all_zero (wd w) = false ->
+                   Shape (W1 ++ w :: W3)
+| Sh_run W1 w A R W3 : Forall az W1 -> Forall az W3 -> Forall ao A ->
+                       zeros_ones (wd w) = true -> all_zero (wd w) = false ->
+                       (R = [] \/ exists w', R = [w'] /\ ones_zeros (wd w') = true /\ all_one (wd w') = false /\
+                                             all_zero (wd w') = false) ->
+                       Shape (W1 ++ w :: A ++ R ++ W3).
+
+Lemma Shape_cons_az x l : az x -> Shape l -> Shape (x :: l).
+Proof.
+  intros Hx H. destruct H as [l H|W1 w W3 H1 H3 Hc Hz|W1 w A R W3 H1 H3 HA Hw Hz HR].
+  - apply Sh_none. now constructor.
+  - apply (Sh_one (x :: W1)); auto.
+  - apply (Sh_run (x :: W1)); auto.
+Qed.
+
+Theorem shape l : Forall (fun x => wd x <> []) l -> contig01 (flat_map wd l) = true -> Shape l.
+Proof.
+  induction 1 as [|x t Hx Ht IH]; simpl; intros H; [apply Sh_none; constructor|].
+  rewrite contig01_app in H. destruct (all_zero (wd x)) eqn:Ez.
+  - (* the block x has no one: the ones are in the rest *)
+    apply Shape_cons_az; [exact Ez|]. apply IH.
+    destruct (contig01 (flat_map wd t)) eqn:Ec; [reflexivity|]. simpl in H.
+    apply orb_true_iff in H. destruct H as [H|H]; apply andb_true_iff in H; destruct H as [_ H].
+    + apply all_zero_ones_zeros, ones_zeros_contig in H. congruence.
+    + apply ones_zeros_contig in H. congruence.
+  - simpl in H. apply orb_true_iff in H. destruct H as [H|H]; apply andb_true_iff in H; destruct H as [H1 H2].
+    + apply all_zero_concat in H2. apply (Sh_one [] x t); auto.
+    + destruct (shape_prefix t Ht H2) as (A & rest & -> & HA & Hr).
+      destruct Hr as [->|(w' & W3 & -> & Ho & Hno & H3)].
+      * rewrite app_nil_r. replace A with (A ++ [] ++ []) by now rewrite !app_nil_r.
+        apply (Sh_run [] x A [] []); auto.
+      * destruct (all_zero (wd w')) eqn:Ez'.
+        -- replace (A ++ w' :: W3) with (A ++ [] ++ (w' :: W3)) by reflexivity.
+           apply (Sh_run [] x A [] (w' :: W3)); auto.
+        -- replace (A ++ w' :: W3) with (A ++ [w'] ++ W3) by reflexivity.
+           apply (Sh_run [] x A [w'] W3); auto. right. exists w'. auto.
+Qed.
+End Shape.
